@@ -17,7 +17,7 @@ import check
 
 def _variants(work, failures):
     groups = {
-        "MCLoopCore": ["var_o1", "var_o2", "var_o3", "var_o4", "var_o5", "var_o8", "var_chan_rearm", "var_exec_rearm", "var_exec_leak"],
+        "MCLoopCore": ["var_o1", "var_o2", "var_o3", "var_o4", "var_o5", "var_o8", "var_chan_rearm", "var_exec_rearm", "var_exec_leak", "var_postact"],
         "MCPingProto": ["ping_var_noreset", "ping_var_close", "ping_var_marker"],
         "MCChanProto": ["chan_var_wake", "chan_var_rearm", "chan_var_droporder", "chan_kf_rendezvous"],
         "MCExecProto": ["exec_var_swap"],
